@@ -5,7 +5,7 @@ LEVEL = 'exploration'
 EXPLANATION = ('bounded exploration: the solver enumerates (program, action home) indices of a fixed corpus; prebuild_action and '
                'gen_text_action run on the real fixture model under CrossHair; no program data is symbolic-through (names and literals must pass the OAL lexer)')
 ASSUMPTIONS = [
-    'program corpus: 34 hand-written bodies (harness/c05_progs.py) covering scalar / attribute / array assignment, control flow, create/delete, relate/unrelate (+using), every select form with where clauses and multi-step chains, function / bridge / class and instance operation invocations as statements and in expressions, parameters, enumerators, constants (incl. one constant name defined by two specifications), nested invocations as parameter values, self; each placed in every compatible action home (function, instance operation, class operation, bridge, derived attribute); plus the 26 real bodies of the fixture model',
+    'program corpus: 40 hand-written bodies (harness/c05_progs.py) covering scalar / attribute / array assignment, control flow, create/delete, relate/unrelate (+using), every select form with where clauses and multi-step chains, function / bridge / class and instance operation invocations as statements and in expressions, parameters, enumerators, constants (incl. one constant name defined by two specifications), nested invocations as parameter values, bridges as values, bridge and structured parameters, structure members and array length, set operators, empty statements, self; each placed in every compatible action home (function, instance operation, class operation, bridge, derived attribute); plus the 26 real bodies of the fixture model',
     'strict comparison of syntax trees (node class, every scalar field, child count and order) with these normalisations only: letter case of operator / boolean literal / cardinality keywords, and bridge / transform / send spellings of the same implicit invocation',
     'names are resolved against fixtures/interp_model.xtuml; text is realised and parsed outside the tracer',
 ]
